@@ -1,6 +1,6 @@
 (* C08 -- Blocks render independently, in order (partial: see MANIFEST level text). *)
 From Rimu Require Import Base Unicode Regex RegexAnalysis RegexParse Str Types Tables Guards State Inline Block
-  Frame FrameBlock FrameInst OptionsLemmas MiscLemmas MoreLemmas Plain TableFacts PlainDoc Lines RegexSem MatchLemmas MatchExact ExactTable Locality CodeBlock.
+  Frame FrameBlock FrameInst OptionsLemmas MiscLemmas MoreLemmas Plain TableFacts PlainDoc Lines RegexSem MatchLemmas MatchExact ExactTable Locality CodeBlock HeaderDoc.
 
 (* the block loop emits the rendering of the first block followed by the rendering of the rest,
    from the state and reader the first block left *)
@@ -128,3 +128,27 @@ Theorem C08_fenced_code_block : forall fuel doc n content s,
   Ok ($"<pre><code>" ++ escape (join [10] content) ++ $"</code></pre>", code_after s).
 Proof. exact code_block_document. Qed.
 Print Assumptions C08_fenced_code_block.
+
+(* HEADERS TO h1-h6 BY MARKER LENGTH: the one-line document  #...# title  (one to six hash signs, one blank, a title over the safe
+   alphabet starting and ending with a non-space, of any length) renders to <hK>title</hK> where K is the decimal digit of the
+   number of hash signs, with the session (log included) unchanged.  The header pattern has one derivation on the line (exact
+   semantics: the marker run must be followed by a blank, the lazy title must reach the end because no closing marker can
+   follow), the six line rules before the header rule cannot match, the template <h$1>$$2</h$1> is evaluated with the
+   cumulative expansion rules of replaceMatch, and the marker text is replaced by its length. *)
+Theorem C08_header : forall n mk title s, quiet_default s -> header_ids_off s -> marker_ok mk -> title_ok title ->
+  doc_render (S (S (S (S (S n))))) (hd_line mk title) s =
+  Ok ($"<h" ++ level_str mk ++ $">" ++ escape title ++ $"</h" ++ level_str mk ++ $">", s).
+Proof. exact header_document. Qed.
+Print Assumptions C08_header.
+
+Theorem C08_header_level : forall mk, marker_ok mk -> level_str mk = [48 + lenN mk]%N.
+Proof. exact level_digit. Qed.
+Print Assumptions C08_header_level.
+
+Example C08_ex_header :
+  quiet_default (document_init S0) /\ header_ids_off (document_init S0) /\
+  match doc_render 8 $"### A title, level 3" (document_init S0) with
+  | Ok (html, _) => html = $"<h3>A title, level 3</h3>"
+  | _ => False
+  end.
+Proof. repeat split; vm_compute; reflexivity. Qed.
